@@ -325,6 +325,9 @@ func truthTableCases() []KleeneCase {
 	lit := func(v int64) *Node { return &Node{K: KInt, I: v} }
 	eq := func(a, b *Node) *Node { return &Node{K: KBin, S: "==", A: a, B: b} }
 	gt := func(a, b *Node) *Node { return &Node{K: KBin, S: ">", A: a, B: b} }
+	nested := func(cond *Node) *Node {
+		return &Node{K: KExists, A: &Node{K: KCur, Next: &Node{K: KKey, S: "a", Next: &Node{K: KFilter, A: cond}}}}
+	}
 	ops := []*Node{
 		eq(lit(1), lit(1)),                                                       // T
 		eq(lit(1), lit(2)),                                                       // F
@@ -340,6 +343,12 @@ func truthTableCases() []KleeneCase {
 		&Node{K: KRegex, A: &Node{K: KCur, Next: &Node{K: KKey, S: "a"}}, S: "^a", Flags: ""},
 		&Node{K: KIsUnknown, A: eq(lit(1), &Node{K: KStr, S: "a"})},              // T
 		&Node{K: KUn, S: "!", A: eq(lit(1), &Node{K: KStr, S: "a"})},             // U
+		// nested filters that re-bind @ and end in each outcome; the sibling operand then uses @ again
+		nested(eq(&Node{K: KCur}, &Node{K: KVar, S: "missing"})),                                     // H inside a nested filter
+		&Node{K: KIsUnknown, A: nested(eq(&Node{K: KCur}, &Node{K: KVar, S: "missing"}))},            // swallowed H
+		nested(gt(&Node{K: KCur}, &Node{K: KStr, S: "x"})),                                           // U/F inside a nested filter
+		nested(eq(&Node{K: KCur}, &Node{K: KCur})),                                                   // T when @.a exists
+		eq(&Node{K: KCur, Next: &Node{K: KKey, S: "a"}}, &Node{K: KCur, Next: &Node{K: KKey, S: "a"}}), // uses @ twice
 	}
 	docs := []string{`1`, `"abc"`, `[1,"a"]`, `null`, `{"x":1}`}
 	var out []KleeneCase
